@@ -375,10 +375,83 @@ def t_expand_binary(b, cur, cs):
     return y, res
 
 
+def spec_slice(lst, start, end):
+    """ONNX Shape(start, end): negative counts from the back, then clamp to [0, rank]."""
+    r = len(lst)
+
+    def norm(i):
+        if i < 0:
+            i += r
+        return max(0, min(r, i))
+
+    s_ = norm(start)
+    e_ = r if end is None else norm(end)
+    return list(lst[s_:e_]) if s_ < e_ else []
+
+
+def t_shape_attr(b, cur, cs):
+    """Shape with arbitrary (also out-of-range) start/end: as a graph output and as an Expand target for a
+    tensor whose shape is a suffix of the true slice."""
+    rng = b.rng
+    r = len(cs)
+    if any(d is None for d in cs):
+        return None
+    start = rng.randint(-r - 2, r + 1)
+    end = rng.choice([None, None, rng.randint(-r - 2, r + 2)])
+    attrs = {}
+    if start != 0 or rng.random() < 0.5:
+        attrs["start"] = start
+    if end is not None:
+        attrs["end"] = end
+    sh = b.node("Shape", [cur], attrs)
+    o = b.node("Identity", [sh])
+    b.outputs.append(o)
+    b.out_elem[o] = TensorProto.INT64
+    T = spec_slice(cs, start, end)
+    if T and rng.random() < 0.7:
+        k = rng.randint(0, len(T))
+        ys = T[k:]
+        y = b.add_input(TensorProto.FLOAT, ys, "y")
+        sh2 = b.node("Shape", [cur], attrs)
+        e = b.node("Expand", [y, sh2])
+        b.outputs.append(e)
+        b.out_elem[e] = TensorProto.FLOAT
+    return cur, cs
+
+
+def t_scatter_all(b, cur, cs):
+    """The ScatterAllDynamic pattern: indices Range(0, Gather(Shape<start>(data), axis)) over the first dim."""
+    rng = b.rng
+    r = len(cs)
+    if any(d is None for d in cs) or r == 0:
+        return None
+    start = rng.choice([0, 0, 0, None, 1]) if r >= 2 else rng.choice([0, 0, None])
+    k = start or 0
+    g = rng.randrange(r - k)            # gathered index inside the slice: true dim is cs[k + g]
+    rows = cs[k + g]
+    tail = [rng.choice([2, 3])] if rng.random() < 0.6 else []
+    # the scattered tensor's first dim is what `check` looks at: data.shape[g] (un-sliced index)
+    td = b.add_input(TensorProto.FLOAT, [cs[g]] + tail, "td")
+    upd = b.add_input(TensorProto.FLOAT, [rows] + tail, "upd")
+    sh = b.node("Shape", [cur], {} if start is None else {"start": start})
+    axn = b.fresh("c")
+    b.inits.append(numpy_helper.from_array(np.array(g if rng.random() < 0.7 else g - (r - k), dtype=np.int64), axn))
+    dim = b.node("Gather", [sh, axn], {"axis": 0})
+    zn, on = b.fresh("c"), b.fresh("c")
+    b.inits.append(numpy_helper.from_array(np.array(0, dtype=np.int64), zn))
+    b.inits.append(numpy_helper.from_array(np.array(1, dtype=np.int64), on))
+    rr = b.node("Range", [zn, dim, on])
+    r2 = b.node("Unsqueeze", [rr, b.ci64([-1])])
+    o = b.node("ScatterND", [td, r2, upd], {"reduction": "none"})
+    b.outputs.append(o)
+    b.out_elem[o] = TensorProto.FLOAT
+    return cur, cs
+
+
 TEMPLATES = [
     (t_reshape_own, 3), (t_expand_own, 3), (t_pieces_reshape, 4), (t_abs_chain, 3), (t_size, 1),
     (t_flatten, 2), (t_slice, 2), (t_cast_out, 1), (t_squeeze_piece, 2), (t_identity, 1),
-    (t_concat_zero, 1), (t_materialize, 2), (t_expand_binary, 3),
+    (t_concat_zero, 1), (t_materialize, 2), (t_expand_binary, 3), (t_shape_attr, 2), (t_scatter_all, 2),
 ]
 
 
